@@ -582,6 +582,10 @@ func (r *Router) waitForHandlers() bool {
 	go func() {
 		defer waitGroup.Done()
 
+		// handler invocations are dispatched by the handlers' loops:
+		// none can be added anymore once all loops are done
+		r.handlersWg.Wait()
+
 		r.runningHandlersWgLock.Lock()
 		defer r.runningHandlersWgLock.Unlock()
 
